@@ -37,6 +37,12 @@ import (
 
 const rawCF = "CF_DEFAULT"
 
+// defaultMockfix: since the fixes C11-1..5 (mocktikv: RawBatchGet omits missing keys, RawScan honours key_only,
+// RawCompareAndSwap on a missing key / previous_not_exist, TiKV-like Split/Merge epochs, RawBatchDelete returns the
+// region error) the RPC wrapper repairs nothing by default.  `C11_MOCKFIX=on` (or a `mockfix on` op line) switches the
+// old repairs back on, to run this harness against a tree without those fixes.
+var defaultMockfix = os.Getenv("C11_MOCKFIX") == "on"
+
 type bounds struct{ s, e string }
 
 type rec struct {
@@ -117,13 +123,13 @@ func (h *env) reset() {
 	// mocktikv's RawChecksum handler always reads column family "CF_DEFAULT" while its raw handlers map the empty
 	// column family to "test_cf"; like rawkv_test.TestRawChecksum the client therefore works in "CF_DEFAULT".
 	h.cli.SetColumnFamily(rawCF)
-	if raw, ok := h.mvcc.(mocktikv.RawKV); ok { // the mock creates a column family on its first put (RawBatchGet on a missing one panics)
+	if raw, ok := h.mvcc.(mocktikv.RawKV); ok && defaultMockfix { // before fix C11-1, RawBatchGet on a column family without any put panicked
 		raw.RawPut(rawCF, []byte("init"), []byte{1})
 		raw.RawDelete(rawCF, []byte("init"))
 	}
 	h.ref = map[string][]byte{}
 	h.epochs = map[[3]uint64]bounds{}
-	h.mockfix = true
+	h.mockfix = defaultMockfix
 	h.noteEpochs()
 }
 
